@@ -54,6 +54,7 @@ CAPS = {'quick': {'case': 2.0, 'cell': 2.5, 'complete': 400, 'sample': 80, 'cbma
 FP_SHARDS = {'quick': 16, 'thorough': 40}
 CB_SHARDS = {'quick': 5, 'thorough': 6}
 CLONE_SHARDS = {'quick': 1, 'thorough': 5}
+FACTORY_SHARDS = {'quick': 1, 'thorough': 4}
 
 
 def shards(tier, seed):
@@ -63,7 +64,8 @@ def shards(tier, seed):
     for i in range(CB_SHARDS[tier]):
         out.append({'kind': 'cb', 'part': i, 'of': CB_SHARDS[tier]})
     out.append({'kind': 'laws+managers'})
-    out.append({'kind': 'factories'})
+    for i in range(FACTORY_SHARDS[tier]):
+        out.append({'kind': 'factories', 'part': i, 'of': FACTORY_SHARDS[tier]})
     if tier == 'quick':
         out.append({'kind': 'natural+objects'})
     else:
@@ -547,11 +549,12 @@ def factory_run(env, cx, label, A, B, C, mode, k=None, excname=None):
     return cb.n
 
 
-def run_factories(rec, env, tier, seed, only=None):
+def run_factories(rec, env, tier, seed, part=0, of=1):
     pairs = FACTORY_PAIRS if tier == 'thorough' else FACTORY_PAIRS[:5]
     kmax = 40 if tier == 'thorough' else 10
     for li, label in enumerate(T.FACTORIES):
-        name = T.FACTORIES[label][0]
+        if li % of != part:
+            continue
         for cx in ('mp', 'clone'):
             if cx == 'clone' and tier == 'quick' and li % 3:
                 continue
@@ -921,7 +924,7 @@ def run_shard(shard, rec):
             run_natural(rec, env, tier, shard['seed'])
             run_objects(rec, env, tier, shard['seed'])
         elif kind == 'factories':
-            run_factories(rec, env, tier, shard['seed'])
+            run_factories(rec, env, tier, shard['seed'], shard.get('part', 0), shard.get('of', 1))
         elif kind == 'natural':
             run_natural(rec, env, tier, shard['seed'])
         elif kind == 'objects':
